@@ -24,7 +24,7 @@
 (***************************************************************************)
 EXTENDS Grammar, Nest
 
-CONSTANTS PKinds, MaxEdits, NCmtCls, NCppForms, NGarb, DirectiveCls, InsSet, MinEdits, DumpMod
+CONSTANTS PKinds, MaxEdits, NCmtCls, NCppForms, NGarb, DirectiveCls, InsSet, MinEdits, DumpMod, NRepl, RichOnly
 
 VARIABLES ed, pd
 pvars == <<out, stack, done, needs08, nlab, nname, nunit, rich, ed, pd>>
@@ -105,6 +105,16 @@ AddLayout ==
   \/ /\ "case" \in PKinds /\ ~\E j \in 1..Len(ed) : ed[j].t = "case"
      /\ \E a \in {1, 2} : ed' = Append(ed, E("case", 0, a, 0))
 
+\* C06: token / character / line mutations of statement pos.  a = where (in eighths of the statement),
+\* b = operation: 1 delete token, 2 duplicate token, 3 swap with the next token, 4..(3+NRepl) replace the token by
+\* punctuation or a keyword, 30 delete a character, 31 insert a quote, 40 delete the line, 41 duplicate it, 42 swap with next
+MutOps == (1..(3 + NRepl)) \cup {30, 31, 40, 41, 42}
+AddMut ==
+  /\ "mut" \in PKinds
+  /\ \E pos \in Ch(IF RichOnly /\ \E i \in 1..N : out[i].v > 1 THEN {i \in 1..N : out[i].v > 1} ELSE 1..N), a \in Ch(1..8), b \in Ch(MutOps) :
+       /\ ~\E j \in 1..Len(ed) : ed[j] = E("mut", pos, a, b)
+       /\ ed' = Append(ed, E("mut", pos, a, b))
+
 InsKinds == <<"if", "do", "selcase", "where", "forall", "assoc", "block", "crit", "type", "iface", "sub", "fun">>
 AddStruct ==
   /\ ed = <<>>
@@ -123,7 +133,7 @@ AddStruct ==
              /\ ed' = <<E("ren", pos, a, 0)>>
 
 PStep == /\ done /\ ~pd /\ Len(ed) < MaxEdits
-         /\ (AddCmt \/ AddCpp \/ AddGarb \/ AddInc \/ AddSent \/ AddStruct \/ AddLayout)
+         /\ (AddCmt \/ AddCpp \/ AddGarb \/ AddInc \/ AddSent \/ AddStruct \/ AddLayout \/ AddMut)
          /\ UNCHANGED <<out, stack, done, needs08, nlab, nname, nunit, rich, pd>>
 PFinish == /\ done /\ ~pd /\ Len(ed) >= MinEdits /\ pd' = TRUE /\ UNCHANGED <<out, stack, done, needs08, nlab, nname, nunit, rich, ed>>
 
